@@ -46,6 +46,12 @@ func newCommand(ctx context.Context, step dag.Step) (Executor, error) {
 		Setpgid: true,
 		Pgid:    0,
 	}
+	// When the context ends (DAG timeout) the whole process group has to go,
+	// as it does on a stop signal: a child left behind keeps the output pipe
+	// open and the step would not end before that child does.
+	cmd.Cancel = func() error {
+		return syscall.Kill(-cmd.Process.Pid, syscall.SIGKILL)
+	}
 
 	return &commandExecutor{
 		cmd: cmd,
